@@ -124,10 +124,10 @@ theorem landmark_row_eq_full_row_any_lazy {P : Problem K} {k : Nat} (hw : ∀ a 
   exact (row_geodesic hw (Or.inl rfl) (hrowL r hr h1) v hv).unique
     (row_geodesic hw (Or.inr rfl) (hrowF _ hlr h2) v hv)
 
-/-- landmark rows, Fibonacci build, conditional form (this was the `_partial` theorem while F-LISOMAP-FLAG was
-    open): a landmark row equals the row of the full matrix whenever the frontier flag set before the loop is the
-    landmark vertex's own flag. -/
-theorem landmark_row_eq_full_row_partial {P : Problem K} {k : Nat} (hw : ∀ a b, 0 ≤ P.w a b) (hk : P.k? = some k)
+/-- landmark rows, Fibonacci build, conditional form: a landmark row equals the row of the full matrix whenever the
+    frontier flag set before the loop is the landmark vertex's own flag (the hypothesis the generated flag index must
+    meet; while F-LISOMAP-FLAG was open this was all that could be proved). -/
+theorem landmark_row_eq_full_row_of_flag {P : Problem K} {k : Nat} (hw : ∀ a b, 0 ≤ P.w a b) (hk : P.k? = some k)
     {disc : Disc} {ch ch' : Nat → Nat → Nat} {lm : List Nat} {L F : List (Vector (Option K) P.N)}
     (hL : landmarkRows P .indexed ch lm = .ok L) (hF : allPairs P disc ch' = .ok F)
     {r : Nat} (hr : r < lm.length) (hlr : lm[r] < P.N) (hflag : Gen.Isomap.landmarkFlag r lm[r] = lm[r]) :
@@ -167,7 +167,7 @@ theorem landmark_row_eq_full_row {P : Problem K} {k : Nat} (hw : ∀ a b, 0 ≤ 
     L[r]? = F[lm[r]]? := by
   cases disc with
   | lazy => exact landmark_row_eq_full_row_any_lazy hw hk hL hF hr hlr
-  | indexed => exact landmark_row_eq_full_row_partial hw hk hL hF hr hlr rfl
+  | indexed => exact landmark_row_eq_full_row_of_flag hw hk hL hF hr hlr rfl
 
 /-- on the former witness of F-LISOMAP-FLAG the Fibonacci build now returns the row of the full matrix -/
 example : landmarkRows flagWitness .indexed (fun _ _ => 0) [1] = .ok [#v[some 1, some 0, some 2]] := by decide
@@ -333,29 +333,36 @@ theorem center_eq_JAJ (hn : (n : K) ≠ 0) {A : Mat n n K} (hA : ∀ i j, A i j 
     norm_num
   exact mul_left_cancel₀ h3 h1
 
-/-- the generated statement list is the one the theorems below are about (fails to compile when
-    `IsomapImplementation::embed` or the dense solver's preamble changes: the statements must then be re-proved
-    for the new list) -/
+/-- the generated statement list is the one the theorems below are about (fails to compile when the statements of
+    `IsomapImplementation::embed` change in substance: they must then be re-proved for the new list; spelling
+    variants are normalised by the translator).  Whether the dense solver symmetrises its input is NOT fixed here:
+    `isomap_is_cmds` holds for both shapes. -/
 theorem isomapSteps_as_written :
-    Gen.Isomap.isomapSteps = [.square, .symmetrise, .center, .scale (-1) 2] ∧
-      Gen.Isomap.denseSolverSymmetrises = true :=
-  ⟨rfl, rfl⟩
+    Gen.Isomap.isomapSteps = [.square, .symmetrise, .center, .scale (-1) 2] := rfl
 
 /-- the matrix handed to the eigensolver is `−½ J S J`, `S` the squared geodesics with the two directions averaged -/
 theorem isomapPre_eq_cmds (hn : (n : K) ≠ 0) (D : Mat n n K) : isomapPre D = cmds (avgSquares D) := by
   unfold isomapPre
-  rw [isomapSteps_as_written.1]
+  rw [isomapSteps_as_written]
   exact steps_fixed hn D
 
 /-- **isomap_is_cmds** (full statement; F-ISOMAP-ASYM repaired): for *every* geodesic matrix — symmetric or not —
-    what the dense eigensolver decomposes (after its own `(A + Aᵀ)/2`) is the classical-MDS matrix `−½ J S J` of the
+    what the dense eigensolver decomposes (after its own `(A + Aᵀ)/2`, if it has one) is the classical-MDS matrix `−½ J S J` of the
     squared geodesics with the two directions averaged. -/
 theorem isomap_is_cmds (hn : (n : K) ≠ 0) (D : Mat n n K) :
     denseSolverInput (isomapPre D) = cmds (avgSquares D) := by
   unfold denseSolverInput
-  rw [isomapSteps_as_written.2, isomapPre_eq_cmds hn]
-  simp only [if_true]
-  exact denseSym_of_symm (cmds_symm hn (avgSquares_symm D))
+  rw [isomapPre_eq_cmds hn]
+  -- with or without the dense solver's own `(A + Aᵀ)/2`: the matrix is symmetric already
+  split
+  · exact denseSym_of_symm (cmds_symm hn (avgSquares_symm D))
+  · rfl
+
+/-- the same statement for either shape of the dense solver's preamble, spelled out -/
+theorem isomap_is_cmds_either_dense_preamble (hn : (n : K) ≠ 0) (D : Mat n n K) :
+    denseSym (isomapPre D) = cmds (avgSquares D) ∧ isomapPre D = cmds (avgSquares D) := by
+  rw [isomapPre_eq_cmds hn]
+  exact ⟨denseSym_of_symm (cmds_symm hn (avgSquares_symm D)), rfl⟩
 
 /-- the matrix handed to the solver is symmetric, so every solver path (dense; randomized, which reads the upper
     triangle only) sees the same matrix — F-RAND-UPPER cannot arise for Isomap -/
